@@ -107,6 +107,25 @@ class M(Model):
     def _is_penalty(self, r):
         return abs(float(r) - self.penalty) <= 1e-5 * max(1.0, abs(self.penalty))
 
+    # ------------------------------------------------------------------ plan bias ('solve' mode of the drivers)
+    def solve_action(self, s, r=0):
+        """Constructive tours that always end with the final return to the depot.  The variant is a function of the
+        instance (so a whole episode follows one of them): 0 = shuttle, back to the depot after every customer (the
+        longest possible legal episode, 2N steps: the trajectory array fills up completely); 1 = nearest fitting
+        customer, depot only when nothing fits; 2 = largest fitting demand first.  r picks among the two best."""
+        h, pos = self._hist(s), int(s.position)
+        leg = self._legal_from(s, h, pos)
+        cust = np.flatnonzero(leg[1:]) + 1
+        variant = int(self._demands(s).sum()) % 3
+        if cust.size == 0 or (variant == 0 and pos != DEPOT and leg[DEPOT]):
+            return np.asarray(DEPOT, np.int32) if leg[DEPOT] else None
+        xy = self._xy(s)
+        if variant == 2:
+            order = cust[np.argsort(-self._demands(s)[cust], kind="stable")]
+        else:
+            order = cust[np.argsort(np.linalg.norm(xy[cust] - xy[np.clip(pos, 0, self.N)], axis=1), kind="stable")]
+        return np.asarray(order[int(r) % min(2, order.size)], np.int32)
+
     # ------------------------------------------------------------------ C04 / C05
     def legal(self, s):
         return self._legal_from(s, self._hist(s), int(s.position))
